@@ -63,6 +63,7 @@ pub enum RefItem {
 
 #[derive(Clone, Debug, Default, Serialize)]
 pub struct RefStats {
+    pub unassigned_named_like_output: usize,
     pub rows: usize,
     pub checked_rows: usize,
     pub loops_entered: usize,
@@ -212,6 +213,8 @@ struct Interp<'a> {
     in_control: bool,
     err_vars: BTreeMap<usize, BTreeMap<String, i64>>,
     soft_errors: Vec<usize>,
+    /// identifier occurrences that mean a variable (one of that name is in scope there)
+    bound: std::collections::HashSet<usize>,
 }
 
 pub fn wrapping_eval_bin(op: BinOp, l: i64, r: i64) -> Result<i64, RefErr> {
@@ -297,6 +300,14 @@ impl<'a> Interp<'a> {
                 if blind.is_none() {
                     if let Some(v) = self.lookup_var(n) {
                         return Ok(v);
+                    }
+                    // a variable in scope that was never assigned on the executed path is an
+                    // error (C10), also when a device output happens to carry the same name
+                    if self.bound.contains(&(e as *const Expr as usize)) {
+                        if self.last_read.contains_key(n.as_str()) {
+                            self.stats.unassigned_named_like_output += 1;
+                        }
+                        return Err(RefErr::Unassigned(n.clone()));
                     }
                 }
                 let src = blind.unwrap_or(&self.last_read);
@@ -876,6 +887,7 @@ pub fn run(p: &Program, sigs: &[Sig], script: &Script, opts: RefOpts) -> RefOutc
         in_control: false,
         err_vars: BTreeMap::new(),
         soft_errors: vec![],
+        bound: crate::scope::analyse(p).bound,
     };
     let _ = it.header;
     it.stats.wide_signals = sigs.iter().filter(|s| s.bits >= 63).count();
